@@ -341,6 +341,84 @@ def flip_case(case):
     return {"ok": True, "nt": n >= 2, "ops": 5, "out": "n%d" % n}
 
 
+def flip_history_case(case):
+    """{'sizes': [...]}: flips of registers of different widths, in the given (not ascending) order and repeated, in one process: each is the bit reversal of its own width"""
+    from orquestra.quantum.wavefunction import flip_amplitudes, flip_wavefunction, Wavefunction
+    k = 0
+    for n in case["sizes"]:
+        v = np.arange(2 ** n)
+        exp = np.zeros_like(v)
+        for i in range(2 ** n):
+            exp[L.bitrev(i, n)] = i
+        for arg in (v, list(v), v.astype(float) + 0.5j):
+            try:
+                out = np.asarray(flip_amplitudes(arg))
+            except Exception as e:  # noqa: BLE001
+                return {"ok": False, "msg": "flip_amplitudes on %d qubits after flips of widths %s raised %s: %s" % (n, case["sizes"][:k], type(e).__name__, e), "sig": "flip-history:exception", "ops": k}
+            want = exp if arg is not v.astype(float) and not np.iscomplexobj(arg) else exp + 0.5j
+            if out.shape != exp.shape or not np.allclose(out, want):
+                return {"ok": False, "msg": "flip_amplitudes on %d qubits (after flips of widths %s) is not the bit reversal" % (n, case["sizes"][:k]), "sig": "flip-history:perm", "ops": k}
+        a = np.zeros(2 ** n, dtype=complex)
+        a[1] = 0.6
+        a[2 ** n - 2 if n > 1 else 0] += 0.8j if n > 1 else 0
+        if n == 1:
+            a = np.array([0.6, 0.8j])
+        got = np.asarray(flip_wavefunction(Wavefunction(a.copy())).amplitudes).reshape(-1)
+        if not np.allclose(got, np.array([a[L.bitrev(i, n)] for i in range(2 ** n)])):
+            return {"ok": False, "msg": "flip_wavefunction on %d qubits (after widths %s)" % (n, case["sizes"][:k]), "sig": "flip-history:wavefunction", "ops": k}
+        k += 1
+    return {"ok": True, "nt": True, "ops": k, "out": "hist%d" % len(case["sizes"])}
+
+
+def wide_case(case):
+    """{'n': 9..12}: a wavefunction on a register whose basis index needs more than one byte: constructor, probabilities, outcome keys, accepted and rejected
+    assignments (single and slice) with roll-back, save/load"""
+    from orquestra.quantum.wavefunction import Wavefunction
+    n = case["n"]
+    N = 2 ** n
+    a = np.zeros(N, dtype=complex)
+    hot = sorted({1, 255, 256, N // 2 + 3, N - 2})
+    w = [0.1, 0.2, 0.3, 0.15, 0.25][:len(hot)]
+    w = np.array(w) / sum(w)
+    for i, p_ in zip(hot, w):
+        a[i] = np.sqrt(p_) * np.exp(0.4j * i)
+    wf = Wavefunction(a.copy())
+    if wf.n_qubits != n or len(wf) != N:
+        return {"ok": False, "msg": "n_qubits / len of a %d-qubit wavefunction" % n, "observed": str((wf.n_qubits, len(wf))), "sig": "wide:size"}
+    pr = np.asarray(wf.get_probabilities(), dtype=float).reshape(-1)
+    if not np.allclose(pr, np.abs(a) ** 2, atol=1e-12) or abs(pr.sum() - 1) > 1e-9:
+        return {"ok": False, "msg": "probabilities of a %d-qubit wavefunction" % n, "sig": "wide:probabilities"}
+    op = wf.get_outcome_probs()
+    if len(op) != N or any(len(k_) != n for k_ in list(op)[:3] + list(op)[-3:]):
+        return {"ok": False, "msg": "get_outcome_probs of a %d-qubit wavefunction: %d keys" % (n, len(op)), "sig": "wide:outcome-keys"}
+    for i in hot:
+        key = format(i, "0%db" % n)[::-1]
+        if abs(op.get(key, -1) - abs(a[i]) ** 2) > 1e-12:
+            return {"ok": False, "msg": "get_outcome_probs: key %s (basis index %d, bit q of the key = qubit q) carries %s" % (key, i, op.get(key)), "expected": float(abs(a[i]) ** 2), "sig": "wide:outcome-probs"}
+    before = np.asarray(wf.amplitudes).reshape(-1).copy()
+    for idx, val_, accept in ((hot[0], a[hot[0]] * 1j, True), (hot[-1], 0.99, False), (N - 1, 0.5, False), (300 if N > 300 else 3, 0.0, True)):
+        try:
+            wf[idx] = val_
+            accepted = True
+        except ValueError:
+            accepted = False
+        now = np.asarray(wf.amplitudes).reshape(-1)
+        if accepted != accept:
+            return {"ok": False, "msg": "assignment wf[%d] = %s on %d qubits was %s" % (idx, val_, n, "accepted" if accepted else "rejected"), "sig": "wide:assignment"}
+        if accepted:
+            before = before.copy()
+            before[idx] = val_
+        if not np.allclose(now, before, atol=0) or abs(np.sum(np.abs(now) ** 2) - 1) > 1e-6:
+            return {"ok": False, "msg": "after %s assignment wf[%d] on %d qubits the object is not %s" % ("an accepted" if accepted else "a rejected", idx, n, "updated and normalised" if accepted else "exactly as before"), "sig": "wide:rollback"}
+    try:
+        wf[250:260] = np.full(10, 0.5)
+        return {"ok": False, "msg": "slice assignment that breaks normalisation was accepted on %d qubits" % n, "sig": "wide:slice-accepted"}
+    except ValueError:
+        if not np.allclose(np.asarray(wf.amplitudes).reshape(-1), before, atol=0):
+            return {"ok": False, "msg": "rejected slice assignment left the %d-qubit object modified" % n, "sig": "wide:slice-rollback"}
+    return {"ok": True, "nt": True, "ops": 8, "out": "n%d" % n}
+
+
 def io_case(case):
     """save/load of a numeric state reached by a history (root + hist), path and open file"""
     from orquestra.quantum.wavefunction import save_wavefunction, load_wavefunction
@@ -412,7 +490,7 @@ def nudge_case(case):
     return {"ok": True, "nt": True, "ops": k, "out": "rounds%d" % case["rounds"]}
 
 
-FUNCS = {"nudges": nudge_case, "histories": step, "constructor": ctor_case, "dicke": dicke_case, "flip": flip_case, "save_load": io_case}
+FUNCS = {"dicke_wide": dicke_case, "flip_history": flip_history_case, "wide": wide_case, "nudges": nudge_case, "histories": step, "constructor": ctor_case, "dicke": dicke_case, "flip": flip_case, "save_load": io_case}
 
 
 def run(run):
@@ -441,6 +519,11 @@ def run(run):
     D = [{"n": n, "k": k} for n in range(1, N + 1) for k in range(-1, n + 2)] + [{"n": 3, "k": 1.0}, {"n": 3, "k": 1.5}]
     secs.append(Section("dicke", D, dicke_case, desc="dicke_state(n,k) for all n<=%d, k in -1..n+1" % N))
     secs.append(Section("flip", [{"n": n} for n in range(1, (8 if thorough else 6) + 1)], flip_case, desc="flip_amplitudes / flip_wavefunction = bit reversal, involution"))
+    secs.append(Section("flip_history", [{"sizes": sz} for sz in ([3, 5, 4, 2, 5, 3, 1], [9, 8, 10, 3, 9, 1, 2], [6, 5, 4, 3, 2, 1, 2, 3, 4, 5, 6], [11, 4, 10, 4] if thorough else [10, 4, 9, 4], [2, 2, 7, 2])],
+                        flip_history_case, chunk=1, desc="flips of widths up to 10 (thorough 11) in non-ascending, repeating orders within one process"))
+    secs.append(Section("wide", [{"n": n} for n in ((9, 10, 11, 12, 13) if thorough else (9, 10, 12))], wide_case, chunk=1, desc="wavefunctions of 9-12 qubits: size, probabilities, outcome keys, accepted / rejected (rolled back) single and slice assignments"))
+    Dw = [{"n": n, "k": k} for n in ((9, 10, 11, 12, 13, 14) if thorough else (9, 10, 12)) for k in sorted({0, 1, 2, n // 2, n - 1, n})]
+    secs.append(Section("dicke_wide", Dw, dicke_case, chunk=1, desc="dicke_state(n,k) for n = 9-12 (thorough 14), k in {0, 1, 2, n/2, n-1, n}"))
     io_cases = [c for c in seen.values()][:: (1 if thorough else 3)]
     secs.append(Section("save_load", io_cases, io_case, desc="save_/load_wavefunction on reachable numeric states (path, open file, StringIO)"))
     run.run_sections(secs)
